@@ -1,4 +1,4 @@
-CONSTANTS MaxOps = 7  MaxPrompt = 2  KVModes = {TRUE, FALSE}  SampledToks = {7, 8}
+CONSTANTS MaxOps = 5  PromptLens = {0, 1, 2}  KVModes = {TRUE, FALSE}  SampledToks = {7, 8}
 INIT Init
 NEXT Step
 INVARIANTS PrevIsHistory PositionsContiguous ExactlyOnce CacheHandOff WholePendingSubmitted
